@@ -1068,6 +1068,15 @@ class Evaluator:
             yield s, ("iterv", [("tuple", [("lit", i), x]) for i, x in enumerate(seq0)])
         elif seq0 is not None and method == "get" and len(args) == 2 and args[1][0] == "lit" and isinstance(args[1][1], int) and not isinstance(args[1][1], bool) and getattr(self, "vecs", False):
             yield s, (some(seq0[args[1][1]]) if 0 <= args[1][1] < len(seq0) else none)
+        elif seq0 is not None and method == "get" and len(args) == 2 and args[1][0] in ("range", "rangefrom", "rangeto") and getattr(self, "vecs", False) and \
+                all(b[0] == "lit" and isinstance(b[1], int) and not isinstance(b[1], bool) for b in args[1][1:3] if isinstance(b, tuple)):
+            i = args[1]
+            lo = i[1][1] if i[0] in ("range", "rangefrom") else 0
+            hi = (i[2][1] + (1 if i[3] else 0)) if i[0] == "range" else (i[1][1] + (1 if i[2] else 0)) if i[0] == "rangeto" else len(seq0)
+            yield s, (some(("array", list(seq0[lo:hi]))) if 0 <= lo <= hi <= len(seq0) else none)
+        elif seq0 is not None and method == "windows" and len(args) == 2 and args[1][0] == "lit" and isinstance(args[1][1], int) and args[1][1] > 0 and getattr(self, "vecs", False):
+            k = args[1][1]
+            yield s, ("iterv", [("array", list(seq0[j:j + k])) for j in range(0, max(0, len(seq0) - k + 1))])
         elif a0 is not None and is_opt(a0) and method in ("copied", "cloned") and len(args) == 1:
             yield s, a0
         elif seq0 is not None and method == "flatten" and len(args) == 1 and all(x[0] == "v" and x[1] in ("Some", "None") for x in seq0):
